@@ -85,6 +85,10 @@ type dsExplorer struct {
 	summarize func(n *dsNode) interface{}
 	// menu: Byzantine deliveries available at any time as deviations (cost 1 each)
 	menu []uint32
+	// freeMenu: deliveries that must be refused by correct code (forged signatures); always available as deviations,
+	// not tracked in the global state (a refused delivery leads back to the same state)
+	freeMenu []uint32
+	fmMtx    sync.Mutex
 	// localCheck is run on the live node after every local step (C01: decision check; C02: monitor)
 	localCheck func(n *dsNode, before string, ev dsEv, emitted []int32) (key, what string)
 	// globalCheck is run on every new global state
@@ -285,7 +289,7 @@ func (e *dsExplorer) enabled(g *dsGlobal) []dsEv {
 		if !e.local(g.L[dest]).active {
 			continue
 		}
-		if e.w.msg(int(m)).Byz && g.Byz >= e.maxByz {
+		if mm := e.w.msg(int(m)); mm.Byz && !mm.Forged && g.Byz >= e.maxByz {
 			continue
 		}
 		evs = append(evs, dsEv{K: dsDeliver, N: uint8(dest), M: m})
@@ -321,7 +325,7 @@ func (e *dsExplorer) succ(g *dsGlobal, ev dsEv) *dsGlobal {
 		}
 		ng.Pend = append(ng.Pend, p)
 	}
-	if ev.K == dsDeliver && e.w.msg(int(ev.M)).Byz {
+	if ev.K == dsDeliver && e.w.msg(int(ev.M)).Byz && !e.w.msg(int(ev.M)).Forged {
 		ng.Byz++
 	}
 	for _, m := range res.pub {
@@ -605,6 +609,14 @@ func (e *dsExplorer) moves(g *dsGlobal) (free *dsEv, devs []dsEv) {
 		}
 		if e.useStale && l.nStale > 0 {
 			devs = append(devs, dsEv{K: dsStale, N: uint8(i)})
+		}
+	}
+	e.fmMtx.Lock()
+	fm := e.freeMenu
+	e.fmMtx.Unlock()
+	for _, p := range fm {
+		if e.local(g.L[dsPendDest(p)]).active {
+			devs = append(devs, dsEv{K: dsDeliver, N: uint8(dsPendDest(p)), M: dsPendMsg(p)})
 		}
 	}
 	if g.Byz < e.maxByz {
